@@ -334,6 +334,20 @@ def length_rules(ctx, R="R1"):
            "it have the bond list's width", sa.lineno)
 
 
+def subarray_keeps_bonds_rule(ctx, rule):
+    """a sub-array has a bond list exactly when the array has one - also an empty one (a structure whose bonds were looked for and
+    not found is not a structure without bond information)"""
+    f = ctx.src(ATOMS).func("_AtomArrayBase._subarray")
+    ifs = [st for st in ast.walk(f) if isinstance(st, ast.If) and any(isinstance(b, ast.Assign) and any(dotted(t) == "new_object._bonds" for t in b.targets)
+                                                                      for b in st.body)]
+    from ..exprnorm import same_expr as _same
+    ctx.ob(rule, ATOMS, "_AtomArrayBase._subarray", "if self._bonds is not None: new_object._bonds = self._bonds[index]",
+           len(ifs) == 1 and _same(ifs[0].test, "self._bonds is not None") and not ifs[0].orelse
+           and any(isinstance(b, ast.Assign) and _same(b.value, "self._bonds[index]") for b in ifs[0].body),
+           "whether the pieces of an array (residues, chains, molecules, slices) carry a bond list must not depend on how many bonds "
+           "there are", f.lineno)
+
+
 def model_table_rule(ctx, rule):
     """the array handed out for one model of a stack has an annotation TABLE of its own (the arrays in it may be shared like numpy
     views; the dict that maps names to arrays is the model's: `del model[0]` rebinds its entries)"""
@@ -555,6 +569,7 @@ def run(ctx):
                    "the array returned for one model shares the stack's BondList object", st.lineno)
 
     model_table_rule(ctx, "R2.fresh")
+    subarray_keeps_bonds_rule(ctx, "R1.subarray-keeps-bond-list")
     # the constructor that Atom.copy() and every `array[i]` / get_atom() go through takes the caller's coordinates over:
     # they must be copied there (np.array copies; np.asarray / copy=False hand out a view of the array's row)
     from ..exprnorm import summarize
